@@ -286,6 +286,87 @@ def colIndex (cols : List String) (name : String) : Option Nat :=
     | c :: cs, i => if c == name then some i else go cs (i + 1)
   go cols 0
 
+/-- State-dependent built-in functions (sequences, clocks, advisory locks). They never call back into the
+    evaluator, so they live outside the mutual block; `none` = not a built-in (with these arguments). -/
+def callBuiltin (name : String) (args : List Value) : Option (M Value) :=
+  if name == "nextval" then
+    match args with
+    | [a] => some (do return .int (← seqNext (← seqName a.toText)))
+    | _ => none
+  else if name == "setval" then
+    match args with
+    | [a, v] => some (do
+      let n ← liftR (castTo {} (tyName "int8") v)
+      match n with
+      | .int k => seqSet (← seqName a.toText) k true; pure (.int k)
+      | _ => pure .null)
+    | [a, v, c] => some (do
+      let n ← liftR (castTo {} (tyName "int8") v)
+      let called ← liftR c.truth
+      match n with
+      | .int k => seqSet (← seqName a.toText) k (called.getD true); pure (.int k)
+      | _ => pure .null)
+    | _ => none
+  else if name == "now" || name == "transaction_timestamp" || name == "current_timestamp" || name == "localtimestamp" then
+    match args with
+    | [] => some (do
+      let s ← get
+      pure (.ts (s.w.session s.sid).txStart))
+    | _ => none
+  else if name == "statement_timestamp" || name == "clock_timestamp" then
+    match args with
+    | [] => some (do return .ts (← get).now)
+    | _ => none
+  else if name == "pg_advisory_xact_lock" then
+    match args with
+    | [k] => some (do
+      match ← liftR (castTo {} (tyName "int8") k) with
+      | .int key => advisoryLock key true; pure .null
+      | _ => pure .null)
+    | _ => none
+  else if name == "pg_advisory_lock" then
+    match args with
+    | [k] => some (do
+      match ← liftR (castTo {} (tyName "int8") k) with
+      | .int key => advisoryLock key false; pure .null
+      | _ => pure .null)
+    | _ => none
+  else if name == "pg_advisory_unlock" then
+    match args with
+    | [k] => some (do
+      match ← liftR (castTo {} (tyName "int8") k) with
+      | .int key => do return .bool (← advisoryUnlock key)
+      | _ => pure .null)
+    | _ => none
+  else if name == "pg_notify" then some (pure .null)
+  else if name == "current_schema" then
+    match args with
+    | [] => some (do return .text (← get).searchPath)
+    | _ => none
+  else none
+
+/-- the value of one ORDER BY item on an output row: a bare output-column name or an ordinal refers to the
+    output column, anything else is evaluated on the input row -/
+def orderKeyM (cb : Callbacks) (te : TypeEnv) (env : Env) (cols : List String) (r : OutRow) : OrderItem → M Value
+  | .mk e _ _ =>
+    let outRef : Option Nat := match e with
+      | .col "" name => colIndex cols name
+      | .int k => if k ≥ 1 then some (k.toNat - 1) else none
+      | _ => none
+    match outRef with
+    | some i => pure ((r.vals[i]?).getD .null)
+    | none =>
+      let outScope : Scope := { alias := "", cols := cols, vals := r.vals }
+      let env' : Env := { env with locals := r.locals, outer := [outScope] ++ env.outer, group := r.group, wins := r.wins }
+      evalExpr cb te env' e
+
+/-- ties: adjacent rows with equal sort keys but different contents -/
+def hasTieR : List (List Value × OutRow) → R Bool
+  | (k1, r1) :: (k2, r2) :: rest => do
+    if (← sameGroupKey k1 k2) && !(← sameGroupKey r1.vals r2.vals) then pure true
+    else hasTieR ((k2, r2) :: rest)
+  | _ => pure false
+
 mutual
 
 /-- callbacks at fuel `n` -/
@@ -313,30 +394,34 @@ def evalQuery : Nat → Env → Query → M Rel
         -- statement's snapshot, the WHERE clause is re-evaluated on the updated
         -- version, which is the one locked and returned (or skipped if it no longer
         -- matches / was deleted).
-        let mut out : List OutRow := []
-        for r in rows do
-          let mut cur : Option OutRow := some r
-          for (tn, rid) in r.srcs do
-            if cur.isNone then break
-            let t ← getTable tn
-            match ← latestVersion t rid with
-            | none => cur := none
-            | some ver =>
-              match ← heldByOther ver with
-              | some x => throw (.blocked s!"row:{tn}:{rid}:xid:{x}" x 0)
-              | none =>
-                lockVersion tn rid
-                let unchanged := r.locals.any (fun sc => sc.src == some (tn, rid) && sc.vals == ver.vals)
-                if !unchanged then
-                  modify fun s => { s with epq := some (tn, rid, ver.vals) }
-                  let (_, again) ← evalSetExpr n env body []
-                  modify fun s => { s with epq := none }
-                  cur := again.head?
-          match cur with
-          | some x => out := out ++ [x]
-          | none => pure ()
-        pure out
+        rows.foldlM (fun (out : List OutRow) r => do
+          match ← lockSources n env body r r.srcs (some r) with
+          | some x => pure (out ++ [x])
+          | none => pure out) []
     pure { cols := cols, rows := rows.map (·.vals) }
+
+/-- FOR UPDATE on one returned row: lock the latest version of each of its source rows; `cur` is the row to
+    return (re-evaluated when a source changed since the snapshot), `none` once a source has vanished -/
+def lockSources : Nat → Env → SetExpr → OutRow → List (String × Nat) → Option OutRow → M (Option OutRow)
+  | 0, _, _, _, _, _ => throw .fuel
+  | _ + 1, _, _, _, [], cur => pure cur
+  | _ + 1, _, _, _, _ :: _, none => pure none
+  | n + 1, env, body, r, (tn, rid) :: rest, some c => do
+    let t ← getTable tn
+    match ← latestVersion t rid with
+    | none => pure none
+    | some ver =>
+      match ← heldByOther ver with
+      | some x => throw (.blocked s!"row:{tn}:{rid}:xid:{x}" x 0)
+      | none =>
+        lockVersion tn rid
+        let unchanged := r.locals.any (fun sc => sc.src == some (tn, rid) && sc.vals == ver.vals)
+        if !unchanged then
+          modify fun s => { s with epq := some (tn, rid, ver.vals) }
+          let (_, again) ← evalSetExpr n env body []
+          modify fun s => { s with epq := none }
+          lockSources n env body r rest again.head?
+        else lockSources n env body r rest (some c)
 
 /-- evaluate the CTEs of a WITH clause, in order, all under the statement's
     snapshot and command id: sub-statements do not see each other's effects
@@ -385,26 +470,10 @@ def sortOut : Nat → Env → List String → List OutRow → List OrderItem →
   | n + 1, env, cols, rows, order => do
     let te ← typeEnv
     let keyed ← rows.mapM (fun r => do
-      let ks ← order.mapM (fun (.mk e _ _) => do
-        let outRef : Option Nat := match e with
-          | .col "" name => colIndex cols name
-          | .int k => if k ≥ 1 then some (k.toNat - 1) else none
-          | _ => none
-        match outRef with
-        | some i => pure ((r.vals[i]?).getD .null)
-        | none =>
-          let outScope : Scope := { alias := "", cols := cols, vals := r.vals }
-          let env' : Env := { env with locals := r.locals, outer := [outScope] ++ env.outer, group := r.group, wins := r.wins }
-          evalExpr (cbs n) te env' e)
+      let ks ← order.mapM (orderKeyM (cbs n) te env cols r)
       pure (ks, r))
     let sortedK ← liftR (sortKeyed keyed (orderDescs order) (orderNulls order))
-    -- ties: equal keys, different rows
-    let rec hasTie : List (List Value × OutRow) → R Bool
-      | (k1, r1) :: (k2, r2) :: rest => do
-        if (← sameGroupKey k1 k2) && !(← sameGroupKey r1.vals r2.vals) then pure true
-        else hasTie ((k2, r2) :: rest)
-      | _ => pure false
-    if ← liftR (hasTie sortedK) then modify fun s => { s with tieSensitive := true }
+    if ← liftR (hasTieR sortedK) then modify fun s => { s with tieSensitive := true }
     pure (cols, sortedK.map (·.2))
 
 def evalFromList : Nat → Env → List FromItem → List (List Scope) → M (List (List Scope))
@@ -515,17 +584,12 @@ def evalSelect : Nat → Env → Select → List OrderItem → M (List String ×
         match findScope proto (lastComponent q) with
         | some s => pure (s.cols.map (fun c => (s.alias, c)))
         | none => throwPg "42P01" s!"missing FROM-clause entry for table \"{q}\""
-    let mut outCols : List String := []
-    let mut outExprs : List Expr := []
-    for it in items do
+    let (outCols, outExprs) ← items.foldlM (fun (acc : List String × List Expr) it =>
       match it with
-      | .expr e a =>
-        outCols := outCols ++ [if a.isEmpty then exprOutName e else a]
-        outExprs := outExprs ++ [e]
-      | .star q =>
+      | .expr e a => pure (acc.1 ++ [if a.isEmpty then exprOutName e else a], acc.2 ++ [e])
+      | .star q => do
         let cs ← starCols q
-        outCols := outCols ++ cs.map (·.2)
-        outExprs := outExprs ++ cs.map (fun (a, c) => Expr.col a c)
+        pure (acc.1 ++ cs.map (·.2), acc.2 ++ cs.map (fun (a, c) => Expr.col a c))) (([] : List String), ([] : List Expr))
     let aggregated := !groupBy.isEmpty || Expr.anyHasAgg outExprs ||
       (match having with | some h => h.hasAgg | none => false) ||
       order.any (fun (.mk e _ _) => e.hasAgg)
@@ -563,17 +627,18 @@ def evalSelect : Nat → Env → Select → List OrderItem → M (List String ×
     -- window functions
     let winSpecs := Expr.winsList outExprs ++ Expr.winsList (order.map (fun (.mk e _ _) => e))
     let indexed := (List.range units.length).zip units
-    let mut winVals : List (Nat × List (Nat × Value)) := []   -- per win id: (row index, value)
-    for ws in winSpecs do
-      if winVals.any (·.1 == ws.id) then continue
-      let data ← indexed.mapM (fun (i, (L, g)) => do
-        let e' : Env := { env with locals := L, group := g }
-        let pk ← evalExprs cb te e' ws.partition
-        let ok ← evalOrderKeys cb te e' ws.order
-        let args ← evalExprs cb te e' ws.args
-        pure (i, pk, ok, args))
-      let vals ← liftR (computeWindow ws.name data (orderDescs ws.order) (orderNulls ws.order))
-      winVals := winVals ++ [(ws.id, vals)]
+    -- per win id: (row index, value)
+    let winVals ← winSpecs.foldlM (fun (winVals : List (Nat × List (Nat × Value))) ws =>
+      if winVals.any (·.1 == ws.id) then pure winVals
+      else do
+        let data ← indexed.mapM (fun (i, (L, g)) => do
+          let e' : Env := { env with locals := L, group := g }
+          let pk ← evalExprs cb te e' ws.partition
+          let ok ← evalOrderKeys cb te e' ws.order
+          let args ← evalExprs cb te e' ws.args
+          pure (i, pk, ok, args))
+        let vals ← liftR (computeWindow ws.name data (orderDescs ws.order) (orderNulls ws.order))
+        pure (winVals ++ [(ws.id, vals)])) []
     -- projection
     let outRows ← indexed.mapM (fun (i, (L, g)) => do
       let wins := winVals.map (fun (id, vals) => (id, (vals.lookup i).getD .null))
@@ -1077,38 +1142,9 @@ def callFunc : Nat → String → String → List Value → M Value
   | 0, _, _, _ => throw .fuel
   | n + 1, schema, name, args => do
     let builtinSchema := schema.isEmpty || schema == "public" || schema == "pg_catalog"
-    match (if builtinSchema then name else ""), args with
-    | "nextval", [a] => do return .int (← seqNext (← seqName a.toText))
-    | "setval", [a, v] => do
-      let n ← liftR (castTo {} (tyName "int8") v)
-      match n with
-      | .int k => seqSet (← seqName a.toText) k true; pure (.int k)
-      | _ => pure .null
-    | "setval", [a, v, c] => do
-      let n ← liftR (castTo {} (tyName "int8") v)
-      let called ← liftR c.truth
-      match n with
-      | .int k => seqSet (← seqName a.toText) k (called.getD true); pure (.int k)
-      | _ => pure .null
-    | "now", [] | "transaction_timestamp", [] | "current_timestamp", [] | "localtimestamp", [] => do
-      let s ← get
-      pure (.ts (s.w.session s.sid).txStart)
-    | "statement_timestamp", [] | "clock_timestamp", [] => do return .ts (← get).now
-    | "pg_advisory_xact_lock", [k] => do
-      match ← liftR (castTo {} (tyName "int8") k) with
-      | .int key => advisoryLock key true; pure .null
-      | _ => pure .null
-    | "pg_advisory_lock", [k] => do
-      match ← liftR (castTo {} (tyName "int8") k) with
-      | .int key => advisoryLock key false; pure .null
-      | _ => pure .null
-    | "pg_advisory_unlock", [k] => do
-      match ← liftR (castTo {} (tyName "int8") k) with
-      | .int key => do return .bool (← advisoryUnlock key)
-      | _ => pure .null
-    | "pg_notify", _ => pure .null
-    | "current_schema", [] => do return .text (← get).searchPath
-    | _, _ =>
+    match (if builtinSchema then callBuiltin name args else none) with
+    | some act => act
+    | none =>
       let full ← qualify schema name
       -- `transaction_date()`: the per-transaction logical clock. The PL/pgSQL body
       -- (a temporary table `on commit delete rows` holding statement_timestamp() of
